@@ -90,6 +90,14 @@ func (g *gate) park(point, t string) {
 		g.mu.Unlock()
 		return
 	}
+	if point == "sc:wait!" {
+		// not held back: the schema is not initialised yet, so the goroutine goes on into the real wait
+		// (the point is recorded; code that does not really wait shows up at its next point too early,
+		// with a schema that is not initialised)
+		g.at[gi], g.typ[gi] = "sc:wait", t
+		g.mu.Unlock()
+		return
+	}
 	ch := make(chan struct{})
 	g.parked[gi], g.at[gi], g.typ[gi] = ch, point, t
 	g.mu.Unlock()
@@ -170,12 +178,20 @@ func Replay(s Schedule) (Obs, []Step, error) {
 		if t == "" || point == "sc:init" {
 			return // sc:init only marks the point; close(initialized) follows at once
 		}
+		if point == "sc:wait" {
+			if v, ok := store.Load(args[0]); ok {
+				if sc, ok := v.(*schema.Schema); ok && !initialised(sc) {
+					point = "sc:wait!"
+				}
+			}
+		}
 		g.park(point, t)
 	}
 	defer func() { schema.VerifHook = nil }()
 	n := len(s.Plan)
 	o := Obs{Results: map[string]int{}, ResType: map[string]string{}, ResInit: map[string]bool{}}
 	got := make([]*schema.Schema, n)
+	initAt := make([]bool, n)
 	errs := make([]error, n)
 	done := make([]chan struct{}, n)
 	reg := make(chan struct{}, n)
@@ -189,6 +205,7 @@ func Replay(s Schedule) (Obs, []Step, error) {
 			reg <- struct{}{}
 			g.park("start", s.Plan[i])
 			got[i], errs[i] = schema.Parse(models[s.Plan[i]], store, namer)
+			initAt[i] = got[i] != nil && initialised(got[i]) // at the moment Parse returns
 			g.park("got", s.Plan[i])
 			// use: walk the schema and, through its relationships, the related schemas
 			if got[i] != nil {
@@ -246,8 +263,12 @@ func Replay(s Schedule) (Obs, []Step, error) {
 			o.Drift = fmt.Sprintf("step %d: g%d is not parked", idx+1, st.G)
 			break
 		}
-		g.release(st.G)
-		at := waitAt(st.G, 15*time.Second)
+		at0, _ := g.where(st.G)
+		at := at0
+		if st.A != "waitdone" || at0 == "sc:wait" {
+			g.release(st.G)
+			at = waitAt(st.G, 15*time.Second)
+		} // else: its wait was over already and it moved on to its next point by itself
 		ok := false
 		for _, x := range arrive[st.A] {
 			if x == at {
@@ -288,7 +309,7 @@ func Replay(s Schedule) (Obs, []Step, error) {
 		}
 		o.Results[k] = ids[got[i]]
 		o.ResType[k] = typeName[got[i].ModelType]
-		o.ResInit[k] = initialised(got[i])
+		o.ResInit[k] = initAt[i]
 	}
 	if o.Errs == nil {
 		o.Errs = []string{}
